@@ -67,7 +67,8 @@ def _collect_pow(expr: Pow) -> tuple[Expr, Dimension]:
     base_expr, base_dim = collect_expression_and_dimension(expr.base)
 
     expr_ = base_expr**exp_expr
-    dim = base_dim**exp_expr
+    # NOTE: a floating-point zero exponent does not reduce the dimension to `1` by itself
+    dim = dimensionless if getattr(exp_expr, "is_zero", False) else base_dim**exp_expr
 
     return expr_, dim
 
